@@ -31,8 +31,13 @@ pub fn render_map(map: serde_yaml::Mapping, vars: &Value, force_string: bool) ->
     for (k, v) in map.iter() {
         match _render(v.clone(), &current_vars, force_string) {
             Ok(v) => {
-                // safe unwrap: k is always a String
-                let value: Value = [(k.as_str().unwrap(), Value::from_serialize(v.clone()))]
+                let key = k.as_str().ok_or_else(|| {
+                    Error::new(
+                        ErrorKind::InvalidData,
+                        format!("{k:?} is not a valid key: keys must be strings"),
+                    )
+                })?;
+                let value: Value = [(key, Value::from_serialize(v.clone()))]
                     .into_iter()
                     .collect();
                 current_vars = context! {
